@@ -178,7 +178,7 @@ func runC15(r *Run) {
 		f()
 	}
 	only := os.Getenv("VERIF_C15_PARTS") // debugging aid: comma separated part indices
-	for i, f := range []func(*Run){c15DecisionProbes, c15Instances, c15Matrix, c15Failures, c15FirstLoadFailures, c15ProvisionCases, c15CleanupInterference} {
+	for i, f := range []func(*Run){c15DecisionProbes, c15Instances, c15Matrix, c15Failures, c15FirstLoadFailures, c15ProvisionCases, c15CleanupInterference, c10LoaderStream} {
 		if only != "" && !strings.Contains(","+only+",", fmt.Sprintf(",%d,", i)) {
 			continue
 		}
